@@ -169,8 +169,9 @@ theorem s8_valid : SdlValid s8Doc :=
   { uniqueTypes := by decide, uniqueDirectives := by decide, oneSchema := by decide, extTargets := by decide,
     noBuiltinNames := by decide, declares := by decide, mergedMembersUnique := by decide }
 
-/-- `build_exact` at full strength is FALSE on the (fixed) code: finding S8 — default literals are coerced
-    against the un-extended definitions. Replay: corpus/C11 `S8-default-needs-extension-enum-value`. -/
+/-- `build_exact` at full strength is FALSE on the (fixed) code: what is left of finding S8 after fix C14-T15 — a
+    default literal written in a DEFINITION is first coerced against the un-extended definitions, and refused when
+    it needs a member that only an `extend` block declares. Replay: corpus/C11 `S8-default-needs-extension-enum-value`. -/
 theorem build_exact_refuted : ¬ BuildExactStatement := fun h => by
   obtain ⟨s, d, hb, _, _⟩ := h s8Doc s8_valid
   have h2 : (build s8Doc).toBool = false := by decide
